@@ -1310,9 +1310,9 @@ pub fn property() -> Property {
         ],
         plan: |tier| match tier {
             Tier::Quick => vec![
-                Step::Pbt { kind: "roundtrip", cases: 3_000, max_len: 400 },
-                Step::Pbt { kind: "mutants", cases: 20_000, max_len: 400 },
-                Step::Pbt { kind: "random", cases: 5_000, max_len: 90 },
+                Step::Pbt { kind: "roundtrip", cases: 15_000, max_len: 400 },
+                Step::Pbt { kind: "mutants", cases: 100_000, max_len: 400 },
+                Step::Pbt { kind: "random", cases: 25_000, max_len: 90 },
             ],
             Tier::Thorough => vec![
                 Step::Pbt { kind: "roundtrip", cases: 100_000, max_len: 400 },
